@@ -1,7 +1,7 @@
 """C02 Map lanes: every subscriber's replica converges to the lane's map."""
 from mirlib import AnchorMissing, describe_call, describe_operand, describe_place, describe_rvalue, dom_guards, guards, decision_paths, _suffix_match
 from rules import uplinks
-from rules.common import aggregates, callers_by_name, crate_aggregates, owner_def, where
+from rules.common import guards_with_sources, aggregates, callers_by_name, crate_aggregates, owner_def, where
 
 META = {
     "explanation": (
@@ -43,8 +43,8 @@ def queue_rules(r, ctx, crate, adt, qfield, tag, regex):
         ok2, w2 = push.must_pass(push.succ[ins.block], {pb.block}) if not push.dominates(pb.block, ins.block) else (True, None)
         r.check(ok1 and ok2, "%s/push/%s/append<=>index" % (tag, v), pb.loc(), "a new %s entry is appended and indexed on the same path" % v,
                 "%s: the queue and the epoch index can get out of step (%s %s)" % (v, w1, w2))
-        g = dom_guards(push, pb.block)
-        r.check(any(l == "None" for d, l, _ in g if "epoch_map" in d or "and_then" in d or "slot" in d), "%s/push/%s/append-only-if-not-queued" % (tag, v), pb.loc(),
+        g = guards_with_sources(push, pb.block)
+        r.check(any(l == "None" for d, l, _, src in g if "epoch_map" in src or "and_then" in d or "slot" in d), "%s/push/%s/append-only-if-not-queued" % (tag, v), pb.loc(),
                 "append only when the key has no queued entry", "append although the key is already queued: a key would have two entries and be reordered")
         ep = describe_operand(push, ins.args[2])
         lens = [s[1] for s in push.sources(ins.args[2], stop_at_calls=False) if s[0] == "call" and s[1].name == "len"]
@@ -78,8 +78,8 @@ def queue_rules(r, ctx, crate, adt, qfield, tag, regex):
     # slot lookup closure: index = epoch - head_epoch
     cls = crate.closures_of(push.defpath)
     nidx = 0
-    for cb in cls:
-        gm = [c for c in cb.calls if c.name == "get_mut"]
+    for cb in list(cls) + [push]:
+        gm = [c for c in cb.calls if c.name == "get_mut" and "VecDeque" in ((c.defpath or "") + (c.self_adt or ""))]
         for c in gm:
             nidx += 1
             d = describe_operand(cb, c.args[1])
@@ -177,7 +177,11 @@ def run(ctx):
                 rets.setdefault(v[0] if v else "?", []).append(c.name + "(..)")
         r.check(all(x.startswith("Option::Some(MapOperation::Remove(") for x in rets.get("Remove", ["?"])), "to_operation/Remove", where(to), "Remove -> Some(Remove{key}) unconditionally", "Remove resolves to %s" % rets.get("Remove"))
         r.check(all(x.startswith("Option::Some(MapOperation::Clear(") for x in rets.get("Clear", ["?"])), "to_operation/Clear", where(to), "Clear -> Some(Clear) unconditionally", "Clear resolves to %s" % rets.get("Clear"))
-        r.check(any("map" in x for x in rets.get("Update", [])), "to_operation/Update", where(to), "Update -> content.get(key).map(..): the value read at pop time (may be None if the key has gone)", "Update resolves to %s" % rets.get("Update"))
+        upd = rets.get("Update", [])
+        # the value is read from the content when the entry is popped: `content.get(&key).map(..)`, or `let v = content.get(&key)?; Some(Update{key, v})`
+        def pop_time(x):
+            return ("map" in x and "Option::Some(" not in x) or (x.startswith("Option::Some(MapOperation::Update(") and "get(content" in x) or x.startswith("from_residual(")
+        r.check(bool(upd) and all(pop_time(x) for x in upd) and any("map" in x or "get(content" in x for x in upd), "to_operation/Update", where(to), "Update -> content.get(key).map(..): the value read at pop time (may be None if the key has gone)", "Update resolves to %s" % rets.get("Update"))
 
     with ctx.rule("C02.R4", "T3", "every mutation of the lane's map records previous and queues the matching operation", floor=6) as r:
         want = {"insert": "Update", "remove": "Remove", "take": "Clear"}
